@@ -10,7 +10,7 @@ LEVEL = "exploration"
 N = {"quick": 2800, "thorough": 12000}
 RULE = ("cases: (constraint list, dyadic behaviour) with the behaviour placed on / just inside / just outside (2^-6) a chosen "
         "constraint boundary or random, behaviours missing a constrained variable, behaviours with extra variables, emptiness "
-        "queries on feasible / infeasible / thin systems (margins 0, 1e-3, 1e-2, 1), and refinement-consistency pairs L within R; "
+        "queries on feasible / infeasible / thin systems (margins 0, 1e-3, 1e-2, 1) optionally with unrelated rows of magnitude 2^-10..1e6, and refinement-consistency pairs L within R; "
         "expected answers by Fraction evaluation and exact feasibility; non-trivial = list has >= 2 terms or >= 2 variables and "
         "the case was judged; distinct = SHA-1 of the case")
 ASSUMPTIONS = ["emptiness is judged only when robust: exactly feasible => must be non-empty; infeasible even after relaxing every constant by 1e-4 => must be empty"]
@@ -63,6 +63,19 @@ def _empty(draw):
         mg = draw(st.sampled_from([1, 2, 0.5])) if cls == "infeasible" else draw(st.sampled_from([0, 1e-3, -1e-3, 1e-2, -1e-2, 2 ** -7]))
         terms = terms + [[{k: -v for k, v in src[0].items()}, -src[1] - mg]]
         terms = list(draw(st.permutations(terms)))
+    if draw(st.integers(0, 2)) == 0:
+        # rows of a very different magnitude that do not change the answer: a bound on a fresh variable, or a scaled-up copy
+        # of a direction the witness satisfies
+        for _ in range(draw(st.integers(1, 2))):
+            k = float(draw(st.sampled_from([2 ** 10, 2 ** 14, 2 ** 17, 1e4, 1e6, 2 ** -10])))
+            if draw(st.booleans()):
+                terms = terms + [[{"q": k * draw(st.sampled_from([1, -1]))}, float(draw(st.sampled_from([1, 0, -1, 1024])))]]
+            else:
+                v = draw(st.sampled_from(pool))
+                sg = draw(st.sampled_from([1, -1]))
+                terms = terms + [[{v: k * sg}, k * sg * float(w[v]) + k * draw(st.sampled_from([0, 1, 4]))]]
+        terms = list(draw(st.permutations(terms)))
+        cls += "+mixed-scale"
     return {"kind": "empty", "terms": terms, "cls": cls}
 
 
